@@ -66,12 +66,24 @@ func encodeFunction(w *World, fn *ssa.Function, dropped map[string]bool) (e *Enc
 	var args []*SVal
 	for _, p := range fn.Params {
 		v := e.symVal(p.Name(), p.Type())
-		if v.K == KPtr {
+		nilable := false
+		if ct := w.Contracts[fn]; ct != nil && ct.Options["nilable:"+p.Name()] {
+			nilable = true // "option nilable:<param>": the parameter may be nil
+		}
+		if v.K == KPtr && !nilable {
 			e.assumeFact(c.Not(c.Eq(v.T, c.NilRef())))
 		}
 		if v.K == KIface {
-			e.assumeFact(c.Not(c.Eq(v.Tag, c.Int(0))))
+			if !nilable {
+				e.assumeFact(c.Not(c.Eq(v.Tag, c.Int(0))))
+			}
 			e.knownDynType(v)
+			if ct := w.Contracts[fn]; ct != nil {
+				if T := ct.dynOption(w, p.Name()); T != nil {
+					v.Dyn = T
+					e.assumeFact(c.Eq(v.Tag, c.Int(int64(w.typeTag(T)))))
+				}
+			}
 		}
 		args = append(args, v)
 		e.inputs = append(e.inputs, inputVal{p.Name(), v})
